@@ -320,6 +320,13 @@ func compareOp(op J, r *LineResult) (string, string) {
 		if !okc {
 			specP = "impl " + impl + " spec " + spec
 		}
+		// contents: the returned document must be the stored one (the specification's or, for another member of
+		// the tie class, the model's text of the same document)
+		for _, other := range []string{spec, model} {
+			if specP == "" && strings.HasPrefix(other, "ok doc ") && other != "ok doc none" && topId(strings.TrimPrefix(other, "ok doc ")) == id && other != impl {
+				specP = "document content differs from the one last written: " + impl + " vs " + other
+			}
+		}
 		if impl != model && !(qSorted(q) && hasTies(r.All)) {
 			modelP = "impl " + impl + " model " + model
 		}
@@ -428,6 +435,12 @@ func runHistory(dr *Driver, im *Impl, lines []J, opts HistOpts) HistoryOutcome {
 			}
 			er := im.Exec(ln, fault, opts.Traces)
 			send := cloneJ(ln)
+			if il, ok := ln["interloper"]; ok && il != nil {
+				// model and specification execute the interloper first, then the operation: the serial order the
+				// implementation's outcome has to equal
+				dr.Ask(J(il.(map[string]interface{})))
+				delete(send, "interloper")
+			}
 			if len(er.Fresh) > 0 {
 				fr := []interface{}{}
 				for _, f := range er.Fresh {
